@@ -24,6 +24,7 @@ namespace Snow.Seeds
 inductive Call where
   | normal (n : Nat)
   | dice
+  | choice (n : Nat)       -- `rng.choice(candidates, size = n, replace = False)` (a `random` storage selection)
 deriving DecidableEq, Repr
 
 /-- position in a stream: generator created from `seed`, after the calls `pre` -/
@@ -41,11 +42,25 @@ deriving DecidableEq, Repr
 
 def NV.total (nv : NV) : Nat := nv.nx * nv.ny * nv.nz
 
-/-- the part of the configuration the bookkeeping reads. `mask` (the deterministic
-storage selection) is carried along and never read by a transition. -/
+/-- `storeStates`: a deterministic selection (index lists, group names, `uniform_n`,
+`None`: the vials are a function of the shape) or a `random_n` request -/
+inductive MaskSpec where
+  | det (vials : List Nat)
+  | random (n : Nat)
+deriving DecidableEq, Repr
+
+/-- the storage mask an object holds: given vials, or vials drawn at `src` -/
+inductive Stored where
+  | det (vials : List Nat)
+  | drawn (src : Pos) (n : Nat)
+deriving DecidableEq, Repr
+
+/-- the part of the configuration the bookkeeping reads. `mask` is the `storeStates`
+argument of the constructor; a `random` request draws from the generator AT
+CONSTRUCTION (after the seed setter's shelf build). -/
 structure Cfg where
   sigmaPos : Bool          -- "s_sigma_rel" in k and k["s_sigma_rel"] > 0
-  mask : List Nat := []
+  mask : MaskSpec := .det []
 deriving DecidableEq, Repr
 
 /-- where the shelf coefficients in `_H_shelf` come from -/
@@ -112,13 +127,27 @@ def setSeed (c : Cfg) (s : Nat) (o : Obj) : M :=
   let r := getHShelf c { o with rng := ⟨s, []⟩, seed := s }
   (r.1, .create s :: r.2)
 
-/-- `Snowflake(seed = s, N_vials = nv, …)`: `_H_* = None`, then the seed setter
-(whose `H_shelf` access builds the shelf vector because `_H_shelf is None`),
-then `_NvialsUsed = N_vials`. -/
+/-- the object right after `_H_* = None` and before the seed setter runs -/
+def newObj0 (s : Nat) (nv : NV) : Obj :=
+  { nv := nv, seed := s, rng := ⟨s, []⟩, seedUsed := s, nvUsed := nv, hBuilt := false, shelf := .scalar false }
+
+/-- `Snowflake(seed = s, N_vials = nv, storeStates = …)`: `_H_* = None`, then the seed
+setter (whose `H_shelf` access builds the shelf vector because `_H_shelf is None`),
+then `_NvialsUsed = N_vials`, then the storage selection: a `random` request calls
+`rng.choice` on the generator as the shelf build left it. -/
 def mkNew (c : Cfg) (s : Nat) (nv : NV) : M :=
-  let r := buildShelf c { nv := nv, seed := s, rng := ⟨s, []⟩, seedUsed := s, nvUsed := nv,
-                          hBuilt := false, shelf := .scalar false }
-  (r.1, .create s :: r.2)
+  let r := buildShelf c (newObj0 s nv)
+  match c.mask with
+  | .det _ => (r.1, .create s :: r.2)
+  | .random n =>
+    ({ r.1 with rng := { r.1.rng with pre := r.1.rng.pre ++ [.choice n] } },
+     .create s :: r.2 ++ [.call (.choice n)])
+
+/-- the storage mask the new object holds -/
+def newMask (c : Cfg) (s : Nat) (nv : NV) : Stored :=
+  match c.mask with
+  | .det l => .det l
+  | .random n => .drawn (buildShelf c (newObj0 s nv)).1.rng n
 
 /-- the dice of a run start at the generator's current position -/
 def rollDice (o : Obj) : Obj × Sched × List Ev :=
@@ -167,16 +196,20 @@ structure Trace where
   xis : List (Nat × Nat) := []
   /-- per run: the configuration the run reads (the one attached at that moment; nothing is cached) -/
   cfgs : List Nat := []
+  /-- the storage mask the object holds (set at construction) … -/
+  mask : Stored := .det []
+  /-- … and, per run, the mask the run READS when it writes the state matrix `X` -/
+  recs : List Stored := []
 deriving DecidableEq, Repr
 
 def step (runF : Cfg → Obj → Obj × Sched × List Ev) (c : Cfg) (t : Trace) : Act → Trace
-  | .new s nv => { t with obj := (mkNew c s nv).1, evs := t.evs ++ [(mkNew c s nv).2] }
+  | .new s nv => { t with obj := (mkNew c s nv).1, evs := t.evs ++ [(mkNew c s nv).2], mask := newMask c s nv }
   | .setSeed s => { t with obj := (setSeed c s t.obj).1, evs := t.evs ++ [(setSeed c s t.obj).2] }
   | .build => { t with obj := (buildMatrices c t.obj).1, evs := t.evs ++ [(buildMatrices c t.obj).2] }
   | .run => { obj := (runF c t.obj).1, evs := t.evs ++ [(runF c t.obj).2.2],
               scheds := t.scheds ++ [(runF c t.obj).2.1],
               xis := t.xis ++ [(t.obj.seedV, t.obj.nv.total)],
-              cfgs := t.cfgs ++ [t.obj.cfgId] }
+              cfgs := t.cfgs ++ [t.obj.cfgId], mask := t.mask, recs := t.recs ++ [t.mask] }
   | .setN nv => { t with obj := { t.obj with nv := nv }, evs := t.evs ++ [[]] }
   | .setSeedV v => { t with obj := { t.obj with seedV := v }, evs := t.evs ++ [[]] }
   | .readShelf => { t with obj := (getHShelf c t.obj).1, evs := t.evs ++ [(getHShelf c t.obj).2] }
